@@ -462,6 +462,10 @@ def c02(rac, units, tier, seed):
     words = _ok_words(rac, _unit_words(units))
     named = [("1J/N", "1m", True), ("1V*A", "1W", True), ("1C/s", "1A", True), ("1T", "1kg/s^2/A", None), ("1N*m", "1J", True), ("1W*s", "1J", True), ("1Pa*m^2", "1N", True),
              ("1J", "1N", False), ("1m", "1s", False), ("1m^2", "1m", False), ("1kg", "1N", False), ("1Hz", "1s", None)]
+    # quantities with only negative powers on the left of `to` (a unit without numerator is not "no unit")
+    for q, exp in [("(1 / 2 s) to m", "err"), ("(10 / 1 s) to kg", "err"), ("(1 / 1 m^2) to s", "err"), ("(3 / 1 s / 1 s) to J", "err"), ("(120 / 1 min) to 1/s", F(2)), ("(1 / 1 ms) to 1/s", F(1000)),
+                   ("(1 / 1 km^2) to 1/m^2", F(1, 10 ** 6)), ("(5 / 1 s) to 1/m", "err"), ("(1 / 1 s) + 1 m", "err")]:
+        expect_value(rep, rac, q, exp, unit_empty=False)
     for a, b, same in named:
         if same is None:
             continue
@@ -883,7 +887,10 @@ def c09(rac, units, tier, seed):
             rep.fail("prefix is its power of ten next to an offset scale", query=q, expected=str(exp), actual=str(st[1]) if len(st) > 1 else st[0])
     # guard family: refused, or interval reading (value scaled by the degree size only)
     guard = [("10°C/s to K/s", F(10)), ("1 m*°C to m*K", F(1)), ("1 °C^2 to K^2", F(1)), ("1 °C^-1 to K^-1", F(1)), ("1 /°F to /K", F(9, 5)), ("10 K/s to °C/s", F(10)), ("9 °F/s to K/s", F(5)), ("1 °C*°C to K^2", F(1)),
-             ("5 K*m to °C*m", F(5)), ("1 J/°C to J/K", F(1)), ("1 W/m^2/°C to W/m^2/K", F(1))]
+             ("5 K*m to °C*m", F(5)), ("1 J/°C to J/K", F(1)), ("1 W/m^2/°C to W/m^2/K", F(1)),
+             # a degree inside a compound cast to the very same unit: refused, or unchanged
+             ("2 °C/min to °C/min", F(2)), ("2 °C/hr to °C/hr", F(2)), ("2 min*°C to min*°C", F(2)), ("2 m°C/s to m°C/s", F(2)), ("2 k°F/hr to k°F/hr", F(2)), ("2 cal/°C to cal/°C", F(2)),
+             ("2 °C/s to °C/s", F(2)), ("3 °F^2 to °F^2", F(3)), ("5 km/°C to km/°C", F(5))]
     for q, interval in guard:
         st = single_value(rac.query(q))
         rep.ran(q, True, dict(query=q, expected=f"error or {interval}"))
